@@ -184,12 +184,15 @@ def load_path(schema, path, overrides=()):
     return _finish(lambda: ZConfig.loadConfig(schema, path))
 
 
-def load_open_file(schema, path, overrides=(), url=None):
-    """Load through ZConfig.loadConfigFile on a real open file."""
+def load_open_file(schema, path, overrides=(), url=None, bytes_name=False):
+    """Load through ZConfig.loadConfigFile on a real open file (with
+    *bytes_name*, one that was opened by a bytes path: its name is bytes)."""
+    import os
     import ZConfig
 
     def go():
-        with open(path, encoding="utf-8", newline="\n") as f:
+        with open(os.fsencode(path) if bytes_name else path,
+                  encoding="utf-8", newline="\n") as f:
             if overrides:
                 return ZConfig.loadConfigFile(schema, f, url,
                                               overrides=overrides)
